@@ -84,10 +84,12 @@ func RunFamily(f *Family, o RunOpts) int {
 		harnessErr                                                                                                           string
 	}{outcomes: map[string]bool{}, extra: map[string]int{}}
 	// shards of at most ~60 scenarios: a shard process stays far below its address-space limit
-	// (thorough explorations run several thousand cycles per scenario: shards of 10)
+	// (thorough explorations run up to a few thousand cycles per scenario and every cycle leaves ~140 KiB
+	// behind - the event broadcaster of its cache cannot be stopped from outside: shards of 20. Much
+	// smaller shards cost more in process start-up than they save.)
 	per := 60
 	if o.Tier == "thorough" {
-		per = 10
+		per = 20
 	}
 	shards := max(o.Workers, (len(scns)+per-1)/per)
 	err := engine.RunShardPool(shards, o.Workers, nil, 6*1024*1024, func(w int, line []byte) {
